@@ -265,8 +265,9 @@ std::unique_ptr<Model> MainSolver::getModel() {
     if (status != s_True) { throw ApiException("Model cannot be created if solver is not in SAT state"); }
 
     OPENSMT_VERIF(verif::stopPoint(4));
-    // The option may have been switched on only after the check: the theory solvers have no model values yet
-    thandler->computeModel();
+    // The theory solvers compute their model values at the end of the check, before the search is cleared; if the option was
+    // switched on only afterwards there is nothing to build the model from
+    if (not theoryModelComputed) { throw ApiException("Model cannot be created: producing models was not enabled during check-sat"); }
     ModelBuilder modelBuilder{logic};
     smt_solver->fillBooleanVars(modelBuilder);
     thandler->fillTheoryFunctions(modelBuilder);
@@ -390,7 +391,8 @@ sstat MainSolver::solve() {
     }
     status = solve_(en_frames);
 
-    if (status == s_True && config.produce_models()) thandler->computeModel();
+    theoryModelComputed = status == s_True && config.produce_models();
+    if (theoryModelComputed) thandler->computeModel();
     smt_solver->clearSearch();
     return status;
 }
